@@ -598,6 +598,12 @@ func (a *Attacker) hit(tr Targeter, atk *attack) *Result {
 	}
 	defer r.Body.Close()
 
+	// The response has arrived, so the request body has been sent: count it
+	// also when reading the response body fails further down.
+	if req.ContentLength != -1 {
+		res.BytesOut = uint64(req.ContentLength)
+	}
+
 	body := io.Reader(r.Body)
 	if a.maxBody >= 0 {
 		body = io.LimitReader(r.Body, a.maxBody)
@@ -609,10 +615,6 @@ func (a *Attacker) hit(tr Targeter, atk *attack) *Result {
 		return &res
 	} else if _, err = io.Copy(io.Discard, r.Body); err != nil {
 		return &res
-	}
-
-	if req.ContentLength != -1 {
-		res.BytesOut = uint64(req.ContentLength)
 	}
 
 	if res.Code = uint16(r.StatusCode); res.Code < 200 || res.Code >= 400 {
